@@ -1159,6 +1159,15 @@ type nodeShadow struct {
 	Kids   []*nodeShadow `( "(" @@* ")" )?`
 }
 
+// the injected fields carry struct tags of other packages and the explicit "no grammar here" tag
+type nodeTagged struct {
+	Pos    lexer.Position `parser:"" json:"pos"`
+	EndPos lexer.Position `parser:"" json:"end,omitempty"`
+	Tokens []lexer.Token  `parser:"" json:"-"`
+	Name   string         `parser:"@Ident" json:"name"`
+	Kids   []*nodeTagged  `parser:"( '(' @@* ')' )?" json:"kids"`
+}
+
 // only the embedded struct has them: they are the node's (promoted) fields
 type nodePromoted struct {
 	posBase
@@ -1262,6 +1271,30 @@ func posfieldsStatic(args []string) error {
 		}
 		walk(v)
 		fmt.Printf("%s\t%q\ttext/scanner lexer, line breaks between tokens: %s\n", status, in, detail)
+	}
+	pt := participle.MustBuild[nodeTagged]()
+	var walkT func(n *nodeTagged, out *[]string)
+	walkT = func(n *nodeTagged, out *[]string) {
+		*out = append(*out, key(n.Pos, n.EndPos, n.Tokens))
+		for _, k := range n.Kids {
+			walkT(k, out)
+		}
+	}
+	for _, in := range []string{"a", "a ( b c )", " a(b(c d) e ( f ) )  "} {
+		var a, d []string
+		v1, e1 := pp.ParseString("", in)
+		v4, e4 := pt.ParseString("", in)
+		if e1 != nil || e4 != nil {
+			fmt.Printf("BAD\t%q\tparse errors %v %v\n", in, e1, e4)
+			continue
+		}
+		walkP(v1, &a)
+		walkT(v4, &d)
+		status := "OK"
+		if strings.Join(a, " ") != strings.Join(d, " ") {
+			status = "BAD"
+		}
+		fmt.Printf("%s\t%q\tplain %v; fields with foreign / empty parser tags %v\n", status, in, a, d)
 	}
 	for _, in := range []string{"a", "a ( b c )", " a(b(c d) e ( f ) )  ", "x ( )"} {
 		var a, b, c []string
